@@ -82,6 +82,40 @@ def job(chk, items):
         chk.sample({'case': results[0].jobs[0][1], 'file': results[0].jobs[0][2], 'predicted_starts': results[0].jobs[0][3]})
 
 
+SWEEP_BODY = """
+contract C {
+    using SafeMath for uint256;
+    function f(uint256 a, uint256 c) public {
+        uint256 r = a.add(c);
+        require(a > c, "a revert string that is longer than thirty-two bytes");
+        require(a > c, "short");
+    }
+}
+"""
+
+
+def sweep_job(chk, versions):
+    """DESIGN 4.4 fallback: the property's own exhaustive range, natively (never an alarm by itself unless the real code fails)"""
+    jobs, meta = [], []
+    for (M, m, p) in versions:
+        for op in OPS:
+            text = 'pragma solidity %s%d.%d.%d;\n' % (op, M, m, p) + SWEEP_BODY
+            path = chk.native.file(text)
+            for d in DETECTORS:
+                jobs.append(['analyze', 'opt', d, path])
+                meta.append((op, (M, m, p), d, text))
+    for (op, v, d, text), r in zip(meta, chk.native.run(jobs)):
+        chk.states += 1
+        pre, post84 = v < (0, 8, 0), v >= (0, 8, 4)
+        want = {'safe_math_pre_080': [6] if pre else [], 'safe_math_post_080': [] if pre else [6],
+                'string_errors': [7, 8] if post84 else [], 'short_revert_string': [] if post84 else [7]}[d]
+        got = [int(x) for x in r[1].split(',') if x] if r[0] == 'OK' else r
+        if got != want:
+            chk.violation('%s:version-sweep:%s' % (d, 'panic' if r[0] != 'OK' else 'wrong'),
+                          '%s with `pragma solidity %s%d.%d.%d;` reports lines %r, expected %r' % ((d, op) + v + (got, want)),
+                          {'job': 'analyze', 'detector': d, 'source': text, 'expected': want, 'observed': got})
+
+
 def body(chk):
     bound = 1 << 31
     combos = []
@@ -102,6 +136,10 @@ def body(chk):
                        'parse::<i32> contract: decimal digits, value must fit', 'as C05']
     chunks = [combos[k:k + 2] for k in range(0, len(combos), 2)]
     chk.parallel(job, chunks)
+    if chk.undecided:
+        versions = [(M, m, p) for M in (0, 1) for m in range(0, 13) for p in range(0, 41)]
+        chk.parallel(sweep_job, [versions[k:k + 70] for k in range(0, len(versions), 70)])
+        chk.extra['native_version_sweep'] = '0.0.0 .. 1.12.40 x %d operator spellings x 4 detectors' % len(OPS)
     rep = sum(j['paths_with_reports'] for j in chk.extra_lists.get('per_job', []))
     sil = sum(j['paths_without'] for j in chk.extra_lists.get('per_job', []))
     if not chk.undecided and not chk.violations and (rep == 0 or sil == 0):
